@@ -11,6 +11,7 @@ mod lex;
 mod lit;
 mod parse;
 mod render;
+mod total;
 
 pub fn unhex(s: &str) -> Option<Vec<u8>> {
     let b = s.as_bytes();
@@ -59,6 +60,11 @@ fn handle(line: &str) -> String {
             Some(t) => render::render(&t),
             None => "bad-arg".into(),
         },
+        ["total", "-"] => total::total(&[]),
+        ["total", h] => match unhex(h) {
+            Some(b) => total::total(&b),
+            None => "bad-arg".into(),
+        },
         ["lit", h] => match unhex_text(h) {
             Some(t) => lit::lit(&t),
             None => "bad-arg".into(),
@@ -86,7 +92,20 @@ fn handle(line: &str) -> String {
     }
 }
 
+/// The stack the `ironplcc` binary gives its compiler thread (COMPILER_STACK_SIZE in plc2x/bin/main.rs, fix 1b7f80a):
+/// the in-process observation runs the same code under the same stack, so that a stack overflow seen here is one the
+/// product has too.
+const COMPILER_STACK_SIZE: usize = 1024 * 1024 * 1024;
+
 fn main() {
+    let t = std::thread::Builder::new()
+        .stack_size(COMPILER_STACK_SIZE)
+        .spawn(serve)
+        .expect("spawn");
+    let _ = t.join();
+}
+
+fn serve() {
     // keep panic messages off stderr; they are reported in-band
     std::panic::set_hook(Box::new(|_| {}));
     let stdin = std::io::stdin();
